@@ -101,7 +101,9 @@ impl<T: Send + Sync> AtomicIter<T> for ConIterOfVec<T> {
 
     #[inline(always)]
     fn progress_and_get_begin_idx(&self, number_to_fetch: usize) -> Option<usize> {
-        let begin_idx = self.counter().fetch_and_add(number_to_fetch);
+        // no more than initial_len elements can be yielded: a larger reservation only risks wrapping the counter around
+        let number_to_reserve = number_to_fetch.min(self.initial_len());
+        let begin_idx = self.counter().fetch_and_add(number_to_reserve);
         match begin_idx.cmp(&self.initial_len()) {
             Ordering::Less => Some(begin_idx),
             _ => None,
